@@ -163,3 +163,48 @@ REGISTRY["C18"] = domain.c18
 REGISTRY["C19"] = domain.c19
 REGISTRY["C20"] = domain.c20
 REGISTRY["C13"] = domain.c13
+
+
+# ---------------------------------------------------------------------------------------------------------------
+# the real binary (engine E7) contributes process-level facts to these properties
+import binary_engine
+
+BIN_PROPS = {"C10", "C11", "C14", "C16", "C17", "C18", "C20"}
+
+
+def with_binary(fn):
+    def wrapped(pid, tier, replay):
+        rc = fn(pid, tier, replay)
+        if replay or rc == 2:
+            return rc
+        t0 = time.time()
+        res = binary_engine.engine(tier)
+        mine = [r for r in res["rows"] if r["prop"] == pid]
+        bad = [r for r in res["violations"] if r["prop"] == pid]
+        # extend the evidence written by the main check
+        ep = os.path.join(EVID, pid + ".json")
+        ev = json.load(open(ep))
+        ev["coverage"]["binary_facts"] = {"recorded": len(mine), "failed": len(bad), "scenarios": sorted({r["scenario"] for r in mine}),
+                                          "model": "App.tla (%d states)" % res.get("states", 0), "sample": mine[:2]}
+        ev["violations"] = ev.get("violations", 0) + len(bad)
+        ev["wall_s"] = round(ev.get("wall_s", 0) + (time.time() - t0), 2)
+        json.dump(ev, open(ep, "w"), indent=1)
+        n0 = len([f for f in os.listdir(os.path.join(EVID, "replay")) if f.startswith(pid + "-")]) if os.path.isdir(os.path.join(EVID, "replay")) else 0
+        for i, r in enumerate(bad):
+            desc = "formula=%s_Binary scenario=%s fact=%s info=%s" % (pid, r["scenario"], r["fact"], r["info"])
+            k = known_match(pid, desc)
+            if k:
+                print("KNOWN-FINDING: property=%s %s" % (pid, k.get("description", desc)))
+                continue
+            os.makedirs(os.path.join(EVID, "replay"), exist_ok=True)
+            path = os.path.join(EVID, "replay", "%s-%d.json" % (pid, n0 + i + 1))
+            json.dump({"property": pid, "engine": "binary", "row": r, "desc": desc}, open(path, "w"), indent=1)
+            print("VIOLATION property=%s replay=%s" % (pid, path))
+            log("  " + desc[:300])
+            rc = 1
+        return rc
+    return wrapped
+
+
+for _p in BIN_PROPS:
+    REGISTRY[_p] = with_binary(REGISTRY[_p])
